@@ -17,6 +17,7 @@ pub fn run(args: &[String]) {
             "poisson" => crate::peaks::run_poisson(&line),
             "spec" => crate::spec::run_case(&line),
             "formula" => crate::formula::run_case(&line),
+            "cbind" => crate::cbind::run_case(&line),
             "conv" => crate::gens::run_conv(&line),
             "brain" => crate::gens::run_brain(&line),
             "brainhist" => crate::gens::run_brainhist(&line),
